@@ -132,6 +132,19 @@ def systems(nmax, seed, thorough):
             out.append(("diag-repeated", D, ones))
             out.append(("unitary-monomial", ul[1][1], np.eye(n)[:, :1, None] * np.array([1.0, 0, 0, 0])))
             out.append(("unitary-reflector", ul[-1][1], ones))
+        if n >= 3:
+            # graded and indefinite on the small part: sub-diagonals of the Hessenberg matrix become small relative to
+            # ||A|| (between machine precision and the tolerance) long before the Krylov space is invariant
+            lam = ([1024.0, 1024.0] + [(-1.0) ** i for i in range(n - 2)])[:n]
+            U = ul[-1][1]
+            out.append(("graded-indefinite|g=%d" % len(set(lam)), E.herm_from_spectrum(U, lam), omul(U, ones)))
+            B = np.zeros((n, n, 4))
+            B[0, 0, 0] = 1024.0
+            for i in range(1, n):                       # 1024 (+) quaternion cyclic shift on the rest
+                B[i, 1 + (i % (n - 1)), 1 + (i % 3)] = 1.0
+            e_last = np.zeros((n, 1, 4))
+            e_last[n - 1, 0, 0] = 1.0
+            out.append(("graded-block-shift", B, e_last + ones * 0.0))
         G = rng.standard_normal((n, n, 4)) + oeye(n) * 3.0
         out.append(("generic", G, rng.standard_normal((n, 1, 4))))
         if thorough:
@@ -157,7 +170,11 @@ def _run_system(args):
     sv = osvals(A)
     cond = float(sv[0] / sv[-1])
     cond_lg = max(0, lg(cond))
-    g0 = grade(A, b)
+    if "|g=" in cname:                       # grade known from the construction (distinct eigenvalues excited by b)
+        cname, gk = cname.split("|g=")
+        g0 = int(gk)
+    else:
+        g0 = grade(A, b)
     tid = sid * 10000
     base = {}
     caps = [None] + list(range(0, n + 1))
@@ -173,7 +190,7 @@ def _run_system(args):
                     start = {"tid": tid, "ev": "Start", "cls": cname, "N": n, "g": g0, "geff": geff,
                              "cap": NOCAP if cap is None else cap, "tol_lg": lg(tol),
                              "prec": prec, "lufault": lufault, "bzero": False, "dense": dense,
-                             "cond_lg": cond_lg if prec == "left_lu" else 0}
+                             "cond_lg": cond_lg if prec == "left_lu" else 0, "condA_lg": cond_lg}
                     ev.append(start)
                     try:
                         x, info = _solve(A, b, tol, cap, prec, dense)
@@ -237,7 +254,7 @@ def _run_system(args):
     for prec in ("none", "left_lu"):
         tid += 1
         ev.append({"tid": tid, "ev": "Start", "cls": cname, "N": n, "g": 0, "geff": 0, "cap": NOCAP,
-                   "tol_lg": lg(1e-8), "prec": prec, "lufault": False, "bzero": True, "dense": True, "cond_lg": 0})
+                   "tol_lg": lg(1e-8), "prec": prec, "lufault": False, "bzero": True, "dense": True, "cond_lg": 0, "condA_lg": 0})
         try:
             import io
             import contextlib
@@ -267,7 +284,7 @@ def run(ctx, replay=None):
     res = ctx.model("QGMRES", MCFG % nmax, dump=False, coverage=True)
     cov = res.get("coverage", {})
     ctx.notes["M_action_coverage"] = {k: v["distinct"] for k, v in cov.items() if k in ("ZeroRhs", "Precondition", "Cycle", "Test")}
-    tols = [1e-2, 1e-6, 1e-10, 1e-12] if thorough else [1e-6, 1e-12]
+    tols = [1e-2, 1e-6, 1e-10, 1e-12] if thorough else [1e-2, 1e-6, 1e-12]
     scales = [2.0 ** -20, 2.0 ** 20] if not thorough else [2.0 ** -20, 2.0 ** 20, 1e-6, 1e6]
     sysl = systems(nmax, ctx.seed, thorough)
     jobs = [(i + 1, c, A, b, tols, scales, thorough) for i, (c, A, b) in enumerate(sysl)]
